@@ -120,6 +120,18 @@ func main() {
 				}
 			}
 		}
+		// circuit breaker wrapper: Execute hands the callback to the circuit with no fallback and returns its error
+		if cbf, err := r.Load("network/circuitbreaker/circuitbreaker.go"); err != nil {
+			e.Missing("circuitbreaker.go", err)
+		} else if fd := cbf.Func("CircuitBreaker", "Execute"); fd == nil {
+			e.Missing("breakerExecuteStmts", "CircuitBreaker.Execute not found")
+		} else {
+			var ss []string
+			for _, st := range fd.Body.List {
+				ss = append(ss, strings.Join(strings.Fields(cbf.Render(st)), " "))
+			}
+			e.Strs("breakerExecuteStmts", ss, "CircuitBreaker.Execute: statements")
+		}
 		// storeDocs: order of the tier sends and of the coldWritten assignment
 		if fd := f.Func("SeqDBClient", "storeDocs"); fd == nil {
 			e.Missing("storeDocsOrder", "storeDocs not found")
@@ -206,5 +218,5 @@ func main() {
 			})
 			e.Strs("sendBulkBreakConds", br, "sendBulkToStores: conditions that end the shard loop")
 		}
-	}, "consts/consts.go", "proxy/bulk/seqdb_client.go", "proxy/bulk/write_status.go")
+	}, "consts/consts.go", "proxy/bulk/seqdb_client.go", "proxy/bulk/write_status.go", "network/circuitbreaker/circuitbreaker.go")
 }
